@@ -229,6 +229,9 @@ fn style(t: &[u8]) -> Style {
     }
 }
 
+fn dirs_only(l: &Listing) -> BTreeSet<Comps> {
+    l.iter().filter(|(_, n)| **n == Node::Dir).map(|(c, _)| c.clone()).collect()
+}
 // ------------------------------------------------------------------ the oracle
 /// The property, checked on what the implementation did, without the model and — whenever the
 /// generator recorded the operations it wrote (`intended_paths`) — without the implementation's
@@ -310,6 +313,11 @@ fn oracle(c: &Case, before: &Listing, after: &Listing, outcome: &Result<Vec<Stri
                     }
                     what.truncate(600);
                     viol = Some((what, "wrong_result".into()));
+                } else if sim.dirs != dirs_only(after) {
+                    let got = dirs_only(after);
+                    let extra: Vec<String> = got.difference(&sim.dirs).map(show_comps).collect();
+                    let missing: Vec<String> = sim.dirs.difference(&got).map(show_comps).collect();
+                    viol = Some((format!("directories after a successful apply differ from performing the ops in order (extra {extra:?}, missing {missing:?})"), "wrong_dirs".into()));
                 } else if *changed != named_paths(ops) {
                     viol = Some((format!("changed_files {:?} != named paths {:?}", changed, named_paths(ops)), "wrong_changed_files".into()));
                 } else {
@@ -1130,6 +1138,77 @@ fn gen_case(r: &mut Rng) -> Case {
     Case { init, patch, tag, intended_paths: intended.is_some(), intended }
 }
 
+// ------------------------------------------------------------------ shrinking a failing case
+/// a plain document stating exactly these operations
+fn render_ops(ops: &[PatchOp]) -> String {
+    let mut l = vec!["*** Begin Patch".to_string()];
+    for op in ops {
+        match op {
+            PatchOp::AddFile { path, content } => {
+                l.push(format!("*** Add File: {}", p2s(path)));
+                for x in content.split_terminator('\n') {
+                    l.push(format!("+{x}"));
+                }
+            }
+            PatchOp::DeleteFile { path } => l.push(format!("*** Delete File: {}", p2s(path))),
+            PatchOp::UpdateFile { path, moved_to, hunks } => {
+                l.push(format!("*** Update File: {}", p2s(path)));
+                if let Some(m) = moved_to {
+                    l.push(format!("*** Move to: {}", p2s(m)));
+                }
+                for h in hunks {
+                    l.push("@@".into());
+                    for x in &h.before {
+                        l.push(format!("-{x}"));
+                    }
+                    for x in &h.after {
+                        l.push(format!("+{x}"));
+                    }
+                }
+            }
+        }
+    }
+    l.push("*** End Patch".into());
+    l.join("\n")
+}
+/// delta debugging over the operations (re-rendered as a plain document), the hunks of each update and the
+/// files of the workspace; a candidate counts when the oracle reports the same class on it
+fn shrink_case(rt: &tokio::runtime::Runtime, c: &Case, class: &str) -> Option<(Case, String)> {
+    let ops: Vec<PatchOp> = match (&c.intended, c.intended_paths) {
+        (Some(v), true) => v.clone(),
+        _ => Patch::parse(&c.patch).ok()?.ops().to_vec(),
+    };
+    let mk = |init: &Listing, ops: &[PatchOp]| Case { init: init.clone(), patch: render_ops(ops), tag: format!("{} (shrunk)", c.tag), intended: Some(ops.to_vec()), intended_paths: true };
+    let fails = |cand: &Case| -> Option<String> {
+        let o = std::panic::catch_unwind(std::panic::AssertUnwindSafe(|| run_impl(rt, cand))).ok()?;
+        match o.viol {
+            Some((what, cl)) if cl == class => Some(what),
+            _ => None,
+        }
+    };
+    fails(&mk(&c.init, &ops))?;
+    let mut ops = shrink_vec(ops, |cand| !cand.is_empty() && fails(&mk(&c.init, cand)).is_some());
+    // fewer hunks per update
+    for i in 0..ops.len() {
+        if let PatchOp::UpdateFile { path, moved_to, hunks } = ops[i].clone() {
+            let hs = shrink_vec(hunks, |cand| {
+                if cand.is_empty() {
+                    return false;
+                }
+                let mut o2 = ops.clone();
+                o2[i] = PatchOp::UpdateFile { path: path.clone(), moved_to: moved_to.clone(), hunks: cand.to_vec() };
+                fails(&mk(&c.init, &o2)).is_some()
+            });
+            ops[i] = PatchOp::UpdateFile { path, moved_to, hunks: hs };
+        }
+    }
+    let entries: Vec<(Comps, Node)> = c.init.iter().map(|(k, v)| (k.clone(), v.clone())).collect();
+    let entries = shrink_vec(entries, |cand| fails(&mk(&cand.iter().cloned().collect(), &ops)).is_some());
+    let small = mk(&entries.into_iter().collect(), &ops);
+    let what = fails(&small)?;
+    Some((small, what))
+}
+
 fn intended_json(ops: &[PatchOp]) -> serde_json::Value {
     serde_json::Value::Array(
         ops.iter()
@@ -1301,6 +1380,7 @@ fn main() {
             all.push(gen_case(&mut r));
         }
     }
+    let mut shrunk_classes: BTreeSet<String> = BTreeSet::new();
     for (i, c) in all.iter().enumerate() {
         let got = std::panic::catch_unwind(std::panic::AssertUnwindSafe(|| run_impl(&rt, c)));
         res.evaluations += 1;
@@ -1318,7 +1398,12 @@ fn main() {
                 res.bump(&format!("outcome={}", match o.code { 0 => "ok", 2 => "err-notfound", 3 => "err-exists", 4 => "err-invalid-data", _ => "err-os" }));
                 res.bump(&format!("family_outcome={}:{}", c.tag.split('+').next().unwrap_or(""), if c.tag.contains('+') && !c.tag.ends_with("+none") { "mutated" } else if o.code == 0 { "ok" } else { "refused" }));
                 if let Some((what, class)) = &o.viol {
-                    res.oracle_violations.push(OracleViolation { case_id: i as i64, what: what.clone(), class: class.clone(), replay: case_json(c) });
+                    // the first case of every class is reported shrunk (operations, hunks, workspace files)
+                    let shrunk = if shrunk_classes.insert(class.clone()) && shrunk_classes.len() <= 6 { shrink_case(&rt, c, class) } else { None };
+                    match shrunk {
+                        Some((small, w)) => res.oracle_violations.push(OracleViolation { case_id: i as i64, what: w, class: class.clone(), replay: case_json(&small) }),
+                        None => res.oracle_violations.push(OracleViolation { case_id: i as i64, what: what.clone(), class: class.clone(), replay: case_json(c) }),
+                    }
                 }
                 if !a.oracle_only() {
                     let id = w.push(coq_case(c, &o, fixed));
